@@ -181,11 +181,14 @@ DISTS = [('line_x', False), ('line_y', False), ('positive_line_x', True), ('posi
 
 def dist_checks(ctx, drv):
     from optiland.distribution import create_distribution, GaussianQuadrature, RandomDistribution
-    ns = list(range(1, 33)) if ctx.quick() else list(range(1, 129))
+    ns = list(range(1, 33)) + sorted({ctx.rng.randint(33, 520) for _ in range(40)}) if ctx.quick() \
+        else list(range(1, 129)) + sorted({ctx.rng.randint(129, 2000) for _ in range(200)})
     lines, keep = [], []
     for name, flag in DISTS:
         for n in ns:
-            if name == 'hexapolar' and n > (12 if ctx.quick() else 40):
+            if name == 'hexapolar' and n > (12 if ctx.quick() else 40) and n % 7 != 0:
+                continue
+            if name == 'hexapolar' and n > (64 if ctx.quick() else 230):
                 continue
             if name == 'uniform' and n > (24 if ctx.quick() else 96):
                 continue
